@@ -18,7 +18,7 @@ func init() {
 			"tx-seq — every path of the send-input worker that hands over success performed exactly [write(input), read-until-echo(ctx, input), write-return, (nothing when eager | read-until-prompt | read-until-any-prompt(channel prompt + interim patterns))] in that order and nothing else that reaches the transport; the result is processOut(bytes of the final read only, StripPrompt) — bytes consumed by the echo read (stale output of earlier exchanges included) are discarded, never returned; exact-vs-fuzzy echo matching is selected by ExactMatchInput; sendCommand performs exactly one SendInput with its own command and records exactly that call's bytes. " +
 			"enqueue-once — in the read loop every successful non-empty transport read reaches exactly one Enqueue before the next read, and the value enqueued is that read's bytes with CR removed (always) and ANSI sequences stripped (when an ESC is present) — nothing else; the read-until loops append every chunk they dequeue and return the whole accumulation on a match. " +
 			"post-process — processOut right-trims spaces per line, removes the prompt exactly when asked, trims the return character and newlines; search-depth — the echo matchers search processReadBuf(buffer, max(PromptSearchDepth, 2*len(input))), the prompt matchers processReadBuf(buffer, PromptSearchDepth), and processReadBuf always returns a suffix of the buffer (the tail, where echo/prompt are, is never cut). one-response-per-command — SendCommands sends commands[i] in slice order and the last element last (append-before-next is C13/stop). " +
-			"NOT decided: off-by-one inside the window computation, the prompt/ANSI regular expressions, fuzzy-match semantics, alignment under arbitrary segmentations.",
+			"NOT decided: off-by-one inside the window computation, the prompt/ANSI regular expressions, fuzzy-match semantics beyond byte consumption (fuzzy-consume), alignment under arbitrary segmentations.",
 		Assumptions: []string{"bytes.ReplaceAll/Trim*/regexp.ReplaceAll behave as documented", "Queue is a lossless FIFO (C20)"},
 		Mutants: []Mutant{
 			{ID: "C01-extra-return-interim", Desc: "extra return on the interim-prompt branch", Rule: "C01/tx-seq",
@@ -39,6 +39,8 @@ func init() {
 				Edits: []Edit{{File: "channel/read.go", Old: "\tprb := rb[len(rb)-searchDepth:]", New: "\tprb := rb[:searchDepth]"}}},
 			{ID: "C01-trim-tabs", Desc: "per-line trim also removes tabs", Rule: "C01/post-process",
 				Edits: []Edit{{File: "channel/channel.go", Old: "cleanLines[i] = bytes.TrimRight(l, \" \")", New: "cleanLines[i] = bytes.TrimRight(l, \" \\t\")"}}},
+			{ID: "C01-fuzzy-no-consume", Desc: "fuzzy matcher does not consume the matched byte", Rule: "C01/fuzzy-consume",
+				Edits: []Edit{{File: "util/bytes.go", Old: "return true, output[idx+1:]", New: "return true, output[idx:]"}}},
 			{ID: "C01-last-first", Desc: "SendCommands sends the last command first", Rule: "C01/one-response-per-command",
 				Edits: []Edit{{File: "driver/generic/sendcommands.go", Old: "\tfor _, input := range commands[:len(commands)-1] {", New: "\tfor _, input := range commands[1:] {"}}},
 			{ID: "C01-sendcommand-twice", Desc: "sendCommand sends the command twice when it failed", Rule: "C01/tx-seq",
@@ -54,6 +56,7 @@ func runC01(c *Ctx, r *Report) {
 	r.Rule("C01/enqueue-once", "read loop: one Enqueue per successful non-empty read, of that read's bytes with CR removed and ANSI stripped; read-until loops append every chunk and return the accumulation", 6)
 	r.Rule("C01/post-process", "processOut: per-line right-trim of spaces, prompt removal exactly when asked, trim of return char and newlines", 3)
 	r.Rule("C01/search-depth", "echo matchers use max(PromptSearchDepth, 2*len(input)), prompt matchers PromptSearchDepth; the window is always a suffix of the buffer", 6)
+	r.Rule("C01/fuzzy-consume", "the fuzzy echo matcher hands on output[I+1:] after matching an input byte at position I (each echoed byte satisfies one input byte)", 1)
 	r.Rule("C01/one-response-per-command", "SendCommands sends the slice's elements in order, the last one last", 2)
 
 	checkSendInputWorker(c, r)
@@ -63,6 +66,7 @@ func runC01(c *Ctx, r *Report) {
 	checkProcessOut(c, r)
 	checkSearchDepth(c, r)
 	checkCommandOrder(c, r)
+	checkFuzzyConsume(c, r)
 }
 
 func checkSendInputWorker(c *Ctx, r *Report) {
